@@ -71,6 +71,10 @@ pub struct CliCase {
     /// 3 = `/dev/stdin`): run through the built binary with the input piped in
     #[serde(default)]
     pub stdin_input: u8,
+    /// with `stdin_input`: the text arrives through a pipe in two pieces, cut after this many bytes, with a pause in
+    /// between (0 = the whole file at once)
+    #[serde(default)]
+    pub stdin_split: u32,
 }
 
 pub fn gen_cli(rng: &mut Rng, prop: &str) -> CliCase {
@@ -140,7 +144,7 @@ pub fn gen_cli(rng: &mut Rng, prop: &str) -> CliCase {
         chroms.sort_by(|a, b| a.name.cmp(&b.name));
         sorted_start = false;
     }
-    CliCase {
+    let c = CliCase {
         kind: pc.kind,
         chroms,
         extra_sizes: pc.extra_sizes.clone(),
@@ -170,7 +174,25 @@ pub fn gen_cli(rng: &mut Rng, prop: &str) -> CliCase {
         schema_only: prop == "C19",
         via_binary: prop == "C16" && rng.chance(1, 10),
         stdin_input: if rng.chance(1, 10) { 1 + rng.below(3) as u8 } else { 0 },
+        stdin_split: 0,
+    };
+    let mut c = c;
+    if c.stdin_input != 0 {
+        if rng.chance(1, 3) {
+            // a first line longer than the 8 KiB buffer in front of standard input
+            let long = "L".repeat(rng.range(8_200, 20_000) as usize);
+            if let Some(it) = c.chroms.iter_mut().flat_map(|ch| ch.items.iter_mut()).next() {
+                if c.kind == Kind::Bed {
+                    it.rest = if it.rest.is_empty() { long } else { format!("{}{}", long, &it.rest) };
+                }
+            }
+        }
+        if rng.chance(1, 3) {
+            // slow producer: the first piece ends inside the first line (or somewhere in the first 300 bytes)
+            c.stdin_split = 1 + rng.below(300) as u32;
+        }
     }
+    c
 }
 
 pub fn input_text(kind: Kind, chroms: &[Chrom]) -> String {
@@ -421,7 +443,12 @@ fn run_cli_inner(c: &CliCase, _st: &mut RunStats) -> Verdict {
             cmd.args(argv);
             cmd
         };
+        let mut pieces = None;
         match feed {
+            Some(f) if c.stdin_split > 0 => {
+                let bytes = std::fs::read(f).map_err(|e| format!("HARNESS: cannot read {}: {}", f.display(), e))?;
+                pieces = Some((bytes, c.stdin_split as usize, 40u64));
+            }
             Some(f) => {
                 let file = std::fs::File::open(f).map_err(|e| format!("HARNESS: cannot open {}: {}", f.display(), e))?;
                 cmd.stdin(std::process::Stdio::from(file));
@@ -430,7 +457,7 @@ fn run_cli_inner(c: &CliCase, _st: &mut RunStats) -> Verdict {
                 cmd.stdin(std::process::Stdio::null());
             }
         }
-        let out = pipesim::output_with_deadline(cmd, 60).map_err(|e| format!("cannot run {} to completion: {}", bin, e))?;
+        let out = pipesim::output_with_deadline_fed(cmd, 60, pieces).map_err(|e| format!("cannot run {} to completion: {}", bin, e))?;
         if out.status.success() {
             Ok(())
         } else {
@@ -442,6 +469,9 @@ fn run_cli_inner(c: &CliCase, _st: &mut RunStats) -> Verdict {
     }
     if stdin_word.is_some() {
         *_st.counters.entry("input_on_stdin".into()).or_insert(0) += 1;
+        if c.stdin_split > 0 {
+            *_st.counters.entry("input_on_stdin_in_two_pieces(real pause)".into()).or_insert(0) += 1;
+        }
     }
     let (fwd_input, feed): (std::path::PathBuf, Option<&Path>) = match stdin_word {
         Some(w) => (std::path::PathBuf::from(w), Some(input.as_path())),
@@ -673,6 +703,7 @@ pub fn shrink_cli(c: &CliCase) -> Vec<CliCase> {
     };
     push(&|n| n.sched = Sched::Calm);
     push(&|n| n.stdin_input = 0);
+    push(&|n| n.stdin_split = 0);
     push(&|n| n.via_binary = false);
     push(&|n| n.nthreads = 1);
     push(&|n| n.read_threads = 1);
